@@ -104,6 +104,9 @@ def build(u):
     sz.loop_body_start("size", 1, "canary.ConcatSource::size.loop1", "canary", "proof { assert(false); }")
     u.raw("}", ("glue", NAME))
     leaf(u, "src/original_source.rs", "pub struct OriginalSource {", "impl Source for OriginalSource {", "OriginalSource", "value", "encode_utf8(self.value@)", "from_string")
+    # D6: `SourceMap` (fields of SourceMapSource that the four content views never touch) as an opaque type
+    u.raw("#[verifier::external_body]\npub struct SourceMap { _p: std::marker::PhantomData<u8> }", ("glue", NAME))
+    leaf(u, "src/source_map_source.rs", "pub struct SourceMapSource {", "impl Source for SourceMapSource {", "SourceMapSource", "value", "encode_utf8(self.value@)", "from_string")
     leaf(u, "src/raw_source.rs", "pub struct RawStringSource(", "impl Source for RawStringSource {", "RawStringSource", "0", "cow_str_bytes(&self.0)", "from_cow")
     u.contracted += [("ConcatSource::children", "src/concat_source.rs"), ("ConcatSource::source", "src/concat_source.rs"), ("ConcatSource::rope", "src/concat_source.rs"),
                      ("ConcatSource::buffer", "src/concat_source.rs"), ("ConcatSource::size", "src/concat_source.rs")]
